@@ -71,12 +71,16 @@ impl Default for Scratch {
 }
 impl Drop for Scratch {
 	fn drop(&mut self) {
+		// only our own directory: the per-process parent is shared with concurrently running runs
 		let _ = std::fs::remove_dir_all(&self.0);
-		// remove the per-process parent when empty
-		if let Some(parent) = self.0.parent() {
-			let _ = std::fs::remove_dir(parent);
-		}
 	}
+}
+
+/// Remove this process's scratch parent (call once, when no run is in flight any more).
+pub fn cleanup_process_scratch() {
+	let p = verif_root().join(".scratch").join(format!("{}", std::process::id()));
+	let _ = std::fs::remove_dir_all(p);
+	let _ = std::fs::remove_dir(verif_root().join(".scratch"));
 }
 
 pub struct ChildCfg<'a> {
